@@ -366,6 +366,14 @@ func RunCheck(o Options) int {
 	defer os.RemoveAll(runDir)
 	env := &Env{Tier: o.Tier, Seed: o.Seed, RunDir: runDir, Repo: o.Repo}
 
+	if o.ReplayOf == "" && o.OnlyCases == "" {
+		// witnesses of earlier runs of this property are stale now
+		if old, _ := filepath.Glob(filepath.Join(o.Root, "replays", o.ID, "*.json")); len(old) > 0 {
+			for _, f := range old {
+				os.Remove(f)
+			}
+		}
+	}
 	var cases []Case
 	if o.ReplayOf != "" {
 		b, err := os.ReadFile(o.ReplayOf)
